@@ -46,4 +46,7 @@ def h_rest_defs_persistence_local_dag_store_go : Nat := 0x1297584bdd286d4c
 /-- hash of the normalised skeleton of * (internal/client/client.go) -/
 def h_rest_defs_client_client_go : Nat := 0x1a3c5e62adde9845
 
+/-- hash of the normalised skeleton of * (internal/frontend/dag/handler.go) -/
+def h_rest_defs_frontend_dag_handler_go : Nat := 0x570888df31ae40f2
+
 end BdModel.Canon.Defs
